@@ -288,15 +288,19 @@ class Run:
                 laws.append(json.loads(line))
             except Exception:
                 pass
-        for k, rec in enumerate(laws):
-            if k < 200:
-                self.problems.append(Problem("law", rec.get("law", "?"), {"stream": name, "case": rec.get("case")}, concrete=True,
-                                             signature="law:" + rec.get("law", "?")))
+        per_law = {}
+        for rec in laws:
+            ln = rec.get("law", "?")
+            per_law[ln] = per_law.get(ln, 0) + 1
+            if per_law[ln] <= 3:   # a few full records per law name; the rest are only counted
+                self.problems.append(Problem("law", ln, {"stream": name, "case": rec.get("case")}, concrete=True,
+                                             signature="law:" + ln))
         self.cov["evaluations"] += stats["evaluations"]
         self.cov["distinct_nontrivial"] += stats["distinct_nontrivial"]
         self.cov["streams"][tag] = {
             "evaluations": stats["evaluations"], "distinct_nontrivial": stats["distinct_nontrivial"],
-            "model_impl_disagreements": ndiff, "law_failures": len(laws), "distribution": stats.get("stats", {})}
+            "model_impl_disagreements": ndiff, "law_failures": len(laws), "law_failures_by_name": per_law,
+            "distribution": stats.get("stats", {})}
         self.cov["samples"] += stats.get("samples", [])[:4]
         return stats
 
@@ -347,7 +351,7 @@ class Run:
             rp.write_text(json.dumps({"property": self.pid, "tier": self.tier, "seed": self.seed,
                                       "how_to_replay": "./check %s --replay %s" % (self.pid, rp),
                                       "no_longer_checks": [p.to_json() for p in remaining if not p.concrete][:50],
-                                      "failing_inputs": [p.to_json() for p in concrete][:50]}, indent=1, default=str))
+                                      "failing_inputs": [p.to_json() for p in concrete][:80]}, indent=1, default=str))
             line = "VIOLATION property=%s replay=%s" % (self.pid, rp)
             if not concrete:
                 line += " no-failing-input-found"
